@@ -266,7 +266,9 @@ void harness (void)
 #elif !defined XV_NATIVE
   xv_salt_span_set = 0;
 #endif
-  errno = 0;
+  /* C07: errno holds whatever an earlier call left there */
+  XV_IN (int, e0, nondet_int);
+  errno = e0;
   METHOD_FN ((const char *) phr, phr_len, (const char *) set, set_len, out, out_size, scr->b, scr_size);
   int err = errno;
 
@@ -276,6 +278,22 @@ void harness (void)
     {
       XV_ASSERT ("C05", out[gk] == o_gk, "a failing method leaves the output (failure token) untouched");
       XV_ASSERT ("C05", err == EINVAL || err == ERANGE || err == ENOMEM, "a failing method sets errno to EINVAL, ERANGE or ENOMEM");
+#if !defined WEAK && (defined M_sha256crypt || defined M_sha512crypt)
+      {
+        /* completeness of the parser, independent of history: under do_crypt's
+           guarantees the only reason to refuse is a rounds= field that is not
+           a canonical decimal 1000..999999999 followed by $ */
+        static const char rp0[8] = "rounds=";
+        bool custom0 = set_len >= 10;
+        for (unsigned i = 0; i < 7; i++)
+          if (custom0 && set[3 + i] != (unsigned char) rp0[i]) custom0 = false;
+        size_t nd0 = 0; bool run0 = true;
+        for (size_t k = 0; k < 12; k++)   /* XV_UNWIND 12 */
+          if (custom0 && run0) { if (10 + k < set_len && xv_is_digit (set[10 + k])) nd0++; else run0 = false; }
+        XV_ASSERT ("C07,C10", custom0 && !(nd0 >= 4 && nd0 <= 9 && set[10] != '0' && set[10 + nd0] == '$'),
+                   "a request is refused only for a malformed rounds= field, whatever errno held before the call");
+      }
+#endif
 #if defined WEAK || defined METHOD_CAN_FAIL
       XV_CANARY ("failure path");
 #else
